@@ -115,7 +115,11 @@ class Acc:
             self.samples.append(obj)
 
     def violation(self, witness):
-        if len(self.violations) < 50:
+        # capped per signature, never globally: many witnesses of one (possibly known) kind must not crowd out
+        # a witness of another kind
+        sig = str(witness.get('sig'))
+        n = sum(1 for v in self.violations if str(v.get('sig')) == sig)
+        if n < 8:
             self.violations.append(witness)
         self.count('violations_raw')
 
@@ -128,8 +132,13 @@ class Acc:
 def merge(total, part):
     total.evals += part['evals']
     total.nontrivial.update(part['nontrivial'])
+    per_sig = getattr(total, '_per_sig', None)
+    if per_sig is None:
+        per_sig = total._per_sig = {}
     for v in part['violations']:
-        if len(total.violations) < 200:
+        sig = str(v.get('sig'))
+        if per_sig.get(sig, 0) < 40:
+            per_sig[sig] = per_sig.get(sig, 0) + 1
             total.violations.append(v)
     total.inconclusive.extend(part['inconclusive'][:20])
     for s in part['samples']:
